@@ -194,6 +194,35 @@ Qed.
 
 Definition wf_wallet (w : wallet) : Prop := Forall (wf_account) (w_accounts w).
 
+(* how Wallet.unlock reduces in the situations the theorems are about *)
+Lemma unlock_locked pw w : is_locked w = true ->
+  unlock P pw w = (fst (unlock_accounts P pw (w_accounts w)),
+                   mkWallet (w_name w) (w_prefs w) (snd (unlock_accounts P pw (w_accounts w)))
+                            (match fst (unlock_accounts P pw (w_accounts w)) with UTrue => Some pw | _ => w_pw w end)).
+Proof. intros H. unfold unlock. rewrite H. destruct (unlock_accounts P pw (w_accounts w)). reflexivity. Qed.
+
+Lemma unlock_nopw pw w : w_pw w = None ->
+  unlock P pw w = (fst (unlock_accounts P pw (w_accounts w)),
+                   mkWallet (w_name w) (w_prefs w) (snd (unlock_accounts P pw (w_accounts w)))
+                            (match fst (unlock_accounts P pw (w_accounts w)) with UTrue => Some pw | _ => w_pw w end)).
+Proof. intros H. unfold unlock. rewrite H. destruct (is_locked w), (unlock_accounts P pw (w_accounts w)); reflexivity. Qed.
+
+Lemma unlock_after_lock pw name prefs l l' :
+  unlock_accounts P pw l = (UTrue, l') -> Forall (fun b => a_encrypted b = true /\ a_priv b = None) l ->
+  unlock P pw (mkWallet name prefs l (Some pw)) = (UTrue, mkWallet name prefs l' (Some pw)).
+Proof.
+  intros Hu Hall. unfold unlock, is_locked. cbn [w_accounts w_pw w_name w_prefs].
+  destruct (existsb a_encrypted l) eqn:E.
+  - rewrite Hu. reflexivity.
+  - destruct l as [|a l].
+    + cbn in Hu. injection Hu as <-. rewrite bytes_eqb_refl. reflexivity.
+    + inversion Hall as [|? ? [Ha _] _]; subst. cbn in E. rewrite Ha in E. discriminate E.
+Qed.
+
+Lemma unlock_of_unlocked_sec pw q w : is_locked w = false -> w_pw w = Some q ->
+  unlock P pw w = (if bytes_eqb pw q then UTrue else UFalse, w).
+Proof. intros Hl Hq. unfold unlock. rewrite Hl, Hq. reflexivity. Qed.
+
 Theorem unlock_restores : forall w pw rnd,
   wf_wallet w -> w_pw w = Some pw -> Forall len16 rnd ->
   exists w1 w2,
@@ -209,7 +238,7 @@ Proof.
   eexists. exists (mkWallet (w_name w) (w_prefs w) l' (Some pw)).
   split; [reflexivity|]. cbn [w_accounts].
   split; [exact Hall|].
-  unfold unlock. cbn [w_accounts w_name w_prefs w_pw]. rewrite Hu.
+  rewrite (unlock_after_lock pw _ _ _ l' Hu Hall).
   split; [reflexivity|]. cbn.
   split; [apply restored_map_secrets; assumption|].
   split; [unfold is_locked; cbn; apply existsb_all_false; eapply restored_plain; eassumption|].
@@ -273,8 +302,10 @@ Theorem failed_unlock_unchanged_first : forall w pw pre a post,
   /\ map strip_iv (w_accounts (snd (unlock P pw w))) = map strip_iv (w_accounts w).
 Proof.
   intros w pw pre a post Hacc Hpre Ha Hrefuse.
-  unfold unlock. rewrite Hacc, (unlock_accounts_skip pw pre (a :: post) Hpre).
-  cbn [unlock_accounts]. rewrite Ha.
+  assert (Hl : is_locked w = true).
+  { unfold is_locked. rewrite Hacc, existsb_app. cbn [existsb]. rewrite Ha. cbn. apply orb_true_r. }
+  rewrite (unlock_locked pw w Hl). rewrite Hacc, (unlock_accounts_skip pw pre (a :: post) Hpre).
+  cbn [unlock_accounts fst snd]. rewrite Ha.
   destruct (account_decrypt P pw a) as [o a'] eqn:Hd. cbn [fst] in Hrefuse.
   destruct (account_decrypt_refused pw a o a' Hd Hrefuse) as [Hs He].
   assert (Hlk : existsb a_encrypted (pre ++ a' :: post) = true).
@@ -322,18 +353,28 @@ Proof.
       cbn [map existsb]. rewrite IH1, IH2. split; [reflexivity|apply orb_true_r].
 Qed.
 
+Lemma unlock_accounts_false_locked pw : forall l l', unlock_accounts P pw l = (UFalse, l') -> existsb a_encrypted l = true.
+Proof.
+  induction l as [|a l IH]; intros l' H; [discriminate H|].
+  cbn [unlock_accounts existsb] in *. destruct (a_encrypted a); [reflexivity|].
+  destruct (unlock_accounts P pw l) as [o r] eqn:Hr. injection H as -> _. cbn. eapply IH. reflexivity.
+Qed.
+
 Theorem failed_unlock_unchanged : forall w pw,
   Forall (sealed_if_opened pw) (w_accounts w) ->
   fst (unlock P pw w) = UFalse ->
-  is_locked (snd (unlock P pw w)) = true
+  is_locked (snd (unlock P pw w)) = is_locked w
   /\ w_pw (snd (unlock P pw w)) = w_pw w
   /\ w_name (snd (unlock P pw w)) = w_name w /\ w_prefs (snd (unlock P pw w)) = w_prefs w
   /\ map strip_iv (w_accounts (snd (unlock P pw w))) = map strip_iv (w_accounts w).
 Proof.
   intros w pw Hs. unfold unlock.
-  destruct (unlock_accounts P pw (w_accounts w)) as [o l'] eqn:Hu. cbn [fst snd].
-  intros ->. destruct (unlock_false_accounts pw _ _ Hs Hu) as [H1 H2].
-  unfold is_locked. cbn. auto.
+  destruct (is_locked w) eqn:Hl; destruct (w_pw w) as [q|] eqn:Hq;
+    try (destruct (unlock_accounts P pw (w_accounts w)) as [o l'] eqn:Hu; cbn [fst snd]; intros ->;
+         destruct (unlock_false_accounts pw _ _ Hs Hu) as [H1 H2];
+         pose proof (unlock_accounts_false_locked pw _ _ Hu) as H3;
+         unfold is_locked in *; cbn [w_accounts w_pw w_name w_prefs]; repeat split; auto; congruence).
+  cbn [fst snd]. intros _. repeat split; auto.
 Qed.
 
 (* ---------------- the behaviour before the two repairs, kept as refuted claims ---------------- *)
@@ -660,14 +701,13 @@ Definition seal (pw : bytes) (a : account) : sealed_view :=
 Lemma nonempty_false b : nonempty b = false -> b = [].
 Proof. destruct b; [reflexivity|discriminate]. Qed.
 
-Lemma account_to_dict_sealed pw rnd a : nonempty pw = true ->
+Lemma account_to_dict_sealed pw rnd a :
   (fst (fst (account_to_dict P (Some pw) rnd a)), snd (account_to_dict P (Some pw) rnd a)) =
   pub_to_dict rnd (pub_of a) (fun iv => E P (kdf P pw) iv (a_seed a)) (fun iv => E P (kdf P pw) iv (key_string a)).
 Proof.
-  intros Hpw. unfold account_to_dict, pub_to_dict, pub_of, key_string, aes_encrypt.
+  unfold account_to_dict, pub_to_dict, pub_of, key_string, aes_encrypt.
   cbn [p_encrypted p_has_key p_has_seed p_iv_priv p_iv_seed p_stored_pks p_stored_seed p_ledger p_name p_pub
        p_addrgen p_modified p_certs].
-  rewrite Hpw.
   destruct (a_encrypted a); cbn [negb andb orb].
   - reflexivity.
   - set (ks := match a_priv a with Some x => x | None => a_pks a end).
@@ -682,12 +722,12 @@ Proof.
       * rewrite (nonempty_false _ Hs). reflexivity.
 Qed.
 
-Lemma accounts_to_dict_sealed pw : nonempty pw = true -> forall l rnd,
+Lemma accounts_to_dict_sealed pw : forall l rnd,
   fst (fst (accounts_to_dict P (Some pw) rnd l)) = pubs_to_dicts rnd (map (seal pw) l).
 Proof.
-  intros Hpw. induction l as [|a l IH]; intros rnd; [reflexivity|].
+  induction l as [|a l IH]; intros rnd; [reflexivity|].
   cbn [accounts_to_dict map pubs_to_dicts seal].
-  pose proof (account_to_dict_sealed pw rnd a Hpw) as H.
+  pose proof (account_to_dict_sealed pw rnd a) as H.
   destruct (account_to_dict P (Some pw) rnd a) as [[d a'] rnd1]. cbn [fst snd] in H.
   fold (seal pw a). unfold seal at 1. rewrite <- H.
   specialize (IH rnd1).
@@ -698,13 +738,12 @@ Qed.
 (* the dict handed to storage.write by Wallet.save when the encrypt-on-disk preference is on and a non-blank
    password is set: a function of name, preferences, the init-vector supply and the sealed views *)
 Theorem no_plaintext_on_disk : forall w pw ts rnd,
-  pref_on w = true -> w_pw w = Some pw -> pw <> [] ->
+  pref_on w = true -> w_pw w = Some pw ->
   fst (save_dict P ts rnd w) = public_image (w_name w) (w_prefs w) rnd (map (seal pw) (w_accounts w)).
 Proof.
-  intros w pw ts rnd Hon Hpw Hne.
-  assert (Hn : nonempty pw = true) by (destruct pw; [congruence|reflexivity]).
+  intros w pw ts rnd Hon Hpw.
   unfold save_dict. rewrite Hon, Hpw. unfold wallet_to_dict, public_image.
-  pose proof (accounts_to_dict_sealed pw Hn (w_accounts w) rnd) as H.
+  pose proof (accounts_to_dict_sealed pw (w_accounts w) rnd) as H.
   destruct (accounts_to_dict P (Some pw) rnd (w_accounts w)) as [[ds accs] r]. cbn [fst] in *.
   rewrite H. reflexivity.
 Qed.
@@ -738,13 +777,13 @@ Proof.
 Qed.
 
 Theorem file_depends_on_ciphertexts_only : forall P w1 w2 pw ts rnd,
-  pref_on w1 = true -> pref_on w2 = true -> w_pw w1 = Some pw -> w_pw w2 = Some pw -> pw <> [] ->
+  pref_on w1 = true -> pref_on w2 = true -> w_pw w1 = Some pw -> w_pw w2 = Some pw ->
   w_name w1 = w_name w2 -> w_prefs w1 = w_prefs w2 ->
   Forall2 same_sealed (map (seal P pw) (w_accounts w1)) (map (seal P pw) (w_accounts w2)) ->
   render_file P (fst (save_dict P ts rnd w1)) = render_file P (fst (save_dict P ts rnd w2)).
 Proof.
-  intros P w1 w2 pw ts rnd H1 H2 Hp1 Hp2 Hne Hn Hpr Hs.
-  rewrite (no_plaintext_on_disk P w1 pw ts rnd H1 Hp1 Hne), (no_plaintext_on_disk P w2 pw ts rnd H2 Hp2 Hne).
+  intros P w1 w2 pw ts rnd H1 H2 Hp1 Hp2 Hn Hpr Hs.
+  rewrite (no_plaintext_on_disk P w1 pw ts rnd H1 Hp1), (no_plaintext_on_disk P w2 pw ts rnd H2 Hp2).
   unfold public_image. rewrite Hn, Hpr, (pubs_to_dicts_ext P _ _ rnd Hs). reflexivity.
 Qed.
 
@@ -983,21 +1022,33 @@ Proof.
   unfold is_locked, pref_set in *. cbn [w_accounts]. exact Hl.
 Qed.
 
-(* ... hence: start-up, unlock with a non-blank password, any save -- the dict written is the sealed image *)
+Lemma unlock_keeps_prefs pw w : w_prefs (snd (unlock P pw w)) = w_prefs w /\ w_name (snd (unlock P pw w)) = w_name w.
+Proof.
+  unfold unlock. destruct (is_locked w), (w_pw w); try (split; reflexivity);
+    destruct (unlock_accounts P pw (w_accounts w)); split; reflexivity.
+Qed.
+
+Lemma unlock_true_pw pw w : fst (unlock P pw w) = UTrue -> w_pw (snd (unlock P pw w)) = Some pw.
+Proof.
+  unfold unlock. destruct (is_locked w); destruct (w_pw w) as [q|] eqn:Hq;
+    try (destruct (unlock_accounts P pw (w_accounts w)) as [o accs]; cbn [fst snd]; intros ->; reflexivity).
+  cbn [fst snd]. destruct (bytes_eqb pw q) eqn:E; [|discriminate]. intros _.
+  apply bytes_eqb_eq in E. subst q. exact Hq.
+Qed.
+
+(* ... hence: start-up, unlock with its password (any string), any save -- the dict written is the sealed image *)
 Theorem start_unlock_save_sealed : forall ts rnd pid st st' w0 (pw : bytes) ts' rnd',
   reload P (m_img st) = Some w0 -> is_locked w0 = true -> pref_is_none w0 = true ->
   step P path umask (MStart ts rnd pid) st = (OTrue, st') ->
-  fst (unlock P pw (m_w st')) = UTrue -> pw <> [] ->
+  fst (unlock P pw (m_w st')) = UTrue ->
   let w2 := snd (unlock P pw (m_w st')) in
   fst (save_dict P ts' rnd' w2) = public_image P (w_name w2) (w_prefs w2) rnd' (map (seal P pw) (w_accounts w2)).
 Proof.
-  intros ts rnd pid st st' w0 pw ts' rnd' Hr Hl Hn Hs Hu Hne w2.
+  intros ts rnd pid st st' w0 pw ts' rnd' Hr Hl Hn Hs Hu w2.
   pose proof (start_enables_encryption ts rnd pid st st' w0 Hr Hl Hn Hs) as Hon.
-  apply no_plaintext_on_disk; [| |exact Hne].
-  - subst w2. unfold unlock. destruct (unlock_accounts P pw (w_accounts (m_w st'))) as [o accs]. cbn [snd].
-    unfold pref_on in *. cbn [w_prefs]. exact Hon.
-  - subst w2. unfold unlock in *. destruct (unlock_accounts P pw (w_accounts (m_w st'))) as [o accs].
-    cbn [fst snd] in *. subst o. reflexivity.
+  apply no_plaintext_on_disk.
+  - subst w2. unfold pref_on in *. rewrite (proj1 (unlock_keeps_prefs pw (m_w st'))). exact Hon.
+  - subst w2. apply unlock_true_pw. exact Hu.
 Qed.
 
 Theorem file_always_complete : forall ops st, coherent st -> coherent (run P path umask ops st).
@@ -1093,7 +1144,7 @@ Definition decryptable (pw : bytes) (a : account) (sd pk : bytes) : Prop :=
   forall b, a_seed b = sd -> a_pks b = pk -> a_pub b = a_pub a ->
   exists ivs ivp, account_decrypt P pw b = (DTrue, set_secrets b (a_seed a) [] (a_priv a) false ivs ivp).
 
-Lemma to_dict_enc_shape pw rnd a : wf_account P a -> nonempty pw = true -> Forall len16 rnd ->
+Lemma to_dict_enc_shape pw rnd a : wf_account P a -> Forall len16 rnd ->
   exists sd pk,
     fst (fst (account_to_dict P (Some pw) rnd a)) =
       JO [(c_ledger, JS (a_ledger a)); (c_name, JS (a_name a)); (c_seed, JS sd); (c_encrypted, JB true);
@@ -1102,8 +1153,8 @@ Lemma to_dict_enc_shape pw rnd a : wf_account P a -> nonempty pw = true -> Foral
     /\ decryptable pw a sd pk
     /\ Forall len16 (snd (account_to_dict P (Some pw) rnd a)).
 Proof.
-  intros [Hpl Hsu Hsw Hpr Hpk Hivs Hivp] Hpw Hr.
-  unfold account_to_dict. rewrite Hpl, Hpw. cbn [negb andb orb].
+  intros [Hpl Hsu Hsw Hpr Hpk Hivs Hivp] Hr.
+  unfold account_to_dict. rewrite Hpl. cbn [negb andb orb].
   set (ks := match a_priv a with Some x => x | None => a_pks a end).
   assert (Hks : (nonempty ks = true /\ a_priv a = Some ks /\ xparse P ks = XOk ks /\ utf8_ok P ks = true)
                 \/ (ks = [] /\ a_priv a = None)).
@@ -1161,7 +1212,7 @@ Lemma account_of_dict_enc l n sd pk pb ag mo ce :
   Some (mkAccount l n sd pk None pb true None None (addrgen_norm (sortkeys ag)) mo (sortkeys ce)).
 Proof. vm_compute. reflexivity. Qed.
 
-Lemma reload_unlock_accounts pw : nonempty pw = true -> forall l rnd,
+Lemma reload_unlock_accounts pw : forall l rnd,
   Forall (wf_account P) l -> Forall len16 rnd ->
   exists l1 l2,
     accounts_of_dicts P (map sortkeys (fst (fst (accounts_to_dict P (Some pw) rnd l)))) = Some l1
@@ -1169,11 +1220,11 @@ Lemma reload_unlock_accounts pw : nonempty pw = true -> forall l rnd,
     /\ unlock_accounts P pw l1 = (UTrue, l2)
     /\ map secrets l2 = map secrets l.
 Proof.
-  intros Hpw. induction l as [|a l IH]; intros rnd Hwf Hr.
+  induction l as [|a l IH]; intros rnd Hwf Hr.
   - exists [], []. cbn. repeat split; constructor.
   - inversion Hwf as [|? ? Ha Hl]; subst.
     cbn [accounts_to_dict].
-    destruct (to_dict_enc_shape pw rnd a Ha Hpw Hr) as (sd & pk & Hd & Hdec & Hr1).
+    destruct (to_dict_enc_shape pw rnd a Ha Hr) as (sd & pk & Hd & Hdec & Hr1).
     destruct (account_to_dict P (Some pw) rnd a) as [[d a'] rnd1]. cbn [fst snd] in Hd, Hr1.
     destruct (IH rnd1 Hl Hr1) as (l1 & l2 & Ho & Hall & Hu & Hs).
     destruct (accounts_to_dict P (Some pw) rnd1 l) as [[ds r'] rnd2]. cbn [fst] in *.
@@ -1188,7 +1239,7 @@ Proof.
 Qed.
 
 Theorem disk_roundtrip : forall w (pw : bytes) rnd,
-  wf_wallet P w -> pw <> [] -> Forall len16 rnd ->
+  wf_wallet P w -> Forall len16 rnd ->
   exists w1 w2,
     wallet_of_dict P (fst (wallet_to_dict P (Some pw) rnd w)) = Some w1
     /\ Forall (fun b => a_encrypted b = true /\ a_priv b = None) (w_accounts w1)
@@ -1197,9 +1248,8 @@ Theorem disk_roundtrip : forall w (pw : bytes) rnd,
     /\ map secrets (w_accounts w2) = map secrets (w_accounts w)
     /\ w_pw w2 = Some pw.
 Proof.
-  intros w pw rnd Hwf Hne Hr.
-  assert (Hpw : nonempty pw = true) by (destruct pw; [congruence|reflexivity]).
-  destruct (reload_unlock_accounts pw Hpw (w_accounts w) rnd Hwf Hr) as (l1 & l2 & Ho & Hall & Hu & Hs).
+  intros w pw rnd Hwf Hr.
+  destruct (reload_unlock_accounts pw (w_accounts w) rnd Hwf Hr) as (l1 & l2 & Ho & Hall & Hu & Hs).
   unfold wallet_to_dict.
   destruct (accounts_to_dict P (Some pw) rnd (w_accounts w)) as [[ds accs] r] eqn:Hacc. cbn [fst] in Ho |- *.
   unfold wallet_of_dict.
@@ -1220,7 +1270,7 @@ Proof.
   eexists. exists (mkWallet (w_name w) pl l2 (Some pw)).
   split; [reflexivity|]. cbn [w_accounts w_pw w_name].
   split; [exact Hall|]. split; [reflexivity|]. split; [reflexivity|].
-  unfold unlock. cbn [w_accounts w_name w_prefs w_pw]. rewrite Hu.
+  rewrite unlock_nopw by reflexivity. cbn [w_accounts w_name w_prefs w_pw]. rewrite Hu. cbn [fst snd].
   repeat split. exact Hs.
 Qed.
 
@@ -1439,3 +1489,7 @@ Proof.
   - apply wops_wh.
   - left. reflexivity.
 Qed.
+
+Theorem unlock_of_unlocked : forall P w pw q, is_locked w = false -> w_pw w = Some q ->
+  unlock P pw w = (if bytes_eqb pw q then UTrue else UFalse, w).
+Proof. intros. apply unlock_of_unlocked_sec; assumption. Qed.
